@@ -6,6 +6,8 @@ import (
 	"strings"
 )
 
+var _ = strings.Join
+
 // Term is a hash-consed SMT term. w==0 means Bool.
 type Term struct {
 	op   string
@@ -17,22 +19,43 @@ type Term struct {
 	smt  string
 }
 
-var termTab = map[string]*Term{}
-var termCnt int
+// TB is a per-worker term builder (hash-consing table). Not safe for concurrent use.
+type TB struct {
+	tab map[termKey]*Term
+	cnt int
+}
 
-func mk(op string, w int, val uint64, name string, args ...*Term) *Term {
-	var sb strings.Builder
-	fmt.Fprintf(&sb, "%s/%d/%d/%s", op, w, val, name)
-	for _, a := range args {
-		fmt.Fprintf(&sb, ",%d", a.id)
+func NewTB() *TB { return &TB{tab: map[termKey]*Term{}} }
+
+type termKey struct {
+	op         string
+	w          int
+	val        uint64
+	name       string
+	a0, a1, a2 int
+}
+
+func (tb *TB) mk(op string, w int, val uint64, name string, args ...*Term) *Term {
+	k := termKey{op: op, w: w, val: val, name: name}
+	switch len(args) {
+	case 3:
+		k.a2 = args[2].id
+		fallthrough
+	case 2:
+		k.a1 = args[1].id
+		fallthrough
+	case 1:
+		k.a0 = args[0].id
+	case 0:
+	default:
+		panic("mk: too many args")
 	}
-	k := sb.String()
-	if t, ok := termTab[k]; ok {
+	if t, ok := tb.tab[k]; ok {
 		return t
 	}
-	termCnt++
-	t := &Term{op: op, w: w, args: args, val: val, name: name, id: termCnt}
-	termTab[k] = t
+	tb.cnt++
+	t := &Term{op: op, w: w, args: args, val: val, name: name, id: tb.cnt}
+	tb.tab[k] = t
 	return t
 }
 
@@ -42,14 +65,14 @@ func mask(w int) uint64 {
 	}
 	return (uint64(1) << uint(w)) - 1
 }
-func Const(w int, v uint64) *Term { return mk("const", w, v&mask(w), "") }
-func Bool(b bool) *Term {
+func (tb *TB) Const(w int, v uint64) *Term { return tb.mk("const", w, v&mask(w), "") }
+func (tb *TB) Bool(b bool) *Term {
 	if b {
-		return mk("const", 0, 1, "")
+		return tb.mk("const", 0, 1, "")
 	}
-	return mk("const", 0, 0, "")
+	return tb.mk("const", 0, 0, "")
 }
-func Var(name string, w int) *Term { return mk("var", w, 0, name) }
+func (tb *TB) Var(name string, w int) *Term { return tb.mk("var", w, 0, name) }
 func (t *Term) IsConst() bool      { return t.op == "const" }
 func (t *Term) True() bool         { return t.op == "const" && t.w == 0 && t.val == 1 }
 func (t *Term) False() bool        { return t.op == "const" && t.w == 0 && t.val == 0 }
@@ -62,7 +85,7 @@ func sext(v uint64, w int) int64 {
 	return int64(v<<sh) >> sh
 }
 
-func BV(op string, a, b *Term) *Term {
+func (tb *TB) BV(op string, a, b *Term) *Term {
 	w := a.w
 	if a.w != b.w {
 		panic(fmt.Sprintf("width mismatch %s %d %d", op, a.w, b.w))
@@ -71,47 +94,47 @@ func BV(op string, a, b *Term) *Term {
 		x, y := a.val, b.val
 		switch op {
 		case "bvadd":
-			return Const(w, x+y)
+			return tb.Const(w, x+y)
 		case "bvsub":
-			return Const(w, x-y)
+			return tb.Const(w, x-y)
 		case "bvmul":
-			return Const(w, x*y)
+			return tb.Const(w, x*y)
 		case "bvand":
-			return Const(w, x&y)
+			return tb.Const(w, x&y)
 		case "bvor":
-			return Const(w, x|y)
+			return tb.Const(w, x|y)
 		case "bvxor":
-			return Const(w, x^y)
+			return tb.Const(w, x^y)
 		case "bvshl":
 			if y >= uint64(w) {
-				return Const(w, 0)
+				return tb.Const(w, 0)
 			}
-			return Const(w, x<<y)
+			return tb.Const(w, x<<y)
 		case "bvlshr":
 			if y >= uint64(w) {
-				return Const(w, 0)
+				return tb.Const(w, 0)
 			}
-			return Const(w, x>>y)
+			return tb.Const(w, x>>y)
 		case "bvashr":
 			if y >= uint64(w) {
 				y = uint64(w - 1)
 			}
-			return Const(w, uint64(sext(x, w)>>y))
+			return tb.Const(w, uint64(sext(x, w)>>y))
 		case "bvudiv":
 			if y != 0 {
-				return Const(w, x/y)
+				return tb.Const(w, x/y)
 			}
 		case "bvurem":
 			if y != 0 {
-				return Const(w, x%y)
+				return tb.Const(w, x%y)
 			}
 		case "bvsdiv":
 			if y != 0 {
-				return Const(w, uint64(sext(x, w)/sext(y, w)))
+				return tb.Const(w, uint64(sext(x, w)/sext(y, w)))
 			}
 		case "bvsrem":
 			if y != 0 {
-				return Const(w, uint64(sext(x, w)%sext(y, w)))
+				return tb.Const(w, uint64(sext(x, w)%sext(y, w)))
 			}
 		}
 	}
@@ -120,16 +143,16 @@ func BV(op string, a, b *Term) *Term {
 		k := uint64(bits.TrailingZeros64(b.val))
 		switch op {
 		case "bvudiv":
-			return BV("bvlshr", a, Const(w, k))
+			return tb.BV("bvlshr", a, tb.Const(w, k))
 		case "bvurem":
-			return BV("bvand", a, Const(w, b.val-1))
+			return tb.BV("bvand", a, tb.Const(w, b.val-1))
 		case "bvsdiv":
-			neg := Cmp("bvslt", a, Const(w, 0))
-			adj := Ite(neg, BV("bvadd", a, Const(w, b.val-1)), a)
-			return BV("bvashr", adj, Const(w, k))
+			neg := tb.Cmp("bvslt", a, tb.Const(w, 0))
+			adj := tb.Ite(neg, tb.BV("bvadd", a, tb.Const(w, b.val-1)), a)
+			return tb.BV("bvashr", adj, tb.Const(w, k))
 		case "bvsrem":
-			q := BV("bvsdiv", a, b)
-			return BV("bvsub", a, BV("bvshl", q, Const(w, k)))
+			q := tb.BV("bvsdiv", a, b)
+			return tb.BV("bvsub", a, tb.BV("bvshl", q, tb.Const(w, k)))
 		}
 	}
 	// light simplifications
@@ -146,11 +169,11 @@ func BV(op string, a, b *Term) *Term {
 			return a
 		}
 		if a == b {
-			return Const(w, 0)
+			return tb.Const(w, 0)
 		}
 	case "bvand":
 		if (a.IsConst() && a.val == 0) || (b.IsConst() && b.val == 0) {
-			return Const(w, 0)
+			return tb.Const(w, 0)
 		}
 		if a.IsConst() && a.val == mask(w) {
 			return b
@@ -177,10 +200,10 @@ func BV(op string, a, b *Term) *Term {
 			return a
 		}
 	}
-	return mk(op, w, 0, "", a, b)
+	return tb.mk(op, w, 0, "", a, b)
 }
 
-func Cmp(op string, a, b *Term) *Term {
+func (tb *TB) Cmp(op string, a, b *Term) *Term {
 	if a.w != b.w {
 		panic(fmt.Sprintf("cmp width mismatch %s %d %d", op, a.w, b.w))
 	}
@@ -189,40 +212,40 @@ func Cmp(op string, a, b *Term) *Term {
 		sx, sy := sext(x, a.w), sext(y, a.w)
 		switch op {
 		case "=":
-			return Bool(x == y)
+			return tb.Bool(x == y)
 		case "bvult":
-			return Bool(x < y)
+			return tb.Bool(x < y)
 		case "bvule":
-			return Bool(x <= y)
+			return tb.Bool(x <= y)
 		case "bvslt":
-			return Bool(sx < sy)
+			return tb.Bool(sx < sy)
 		case "bvsle":
-			return Bool(sx <= sy)
+			return tb.Bool(sx <= sy)
 		}
 	}
 	if a == b {
 		switch op {
 		case "=", "bvule", "bvsle":
-			return Bool(true)
+			return tb.Bool(true)
 		default:
-			return Bool(false)
+			return tb.Bool(false)
 		}
 	}
-	return mk(op, 0, 0, "", a, b)
+	return tb.mk(op, 0, 0, "", a, b)
 }
 
-func Not(a *Term) *Term {
+func (tb *TB) Not(a *Term) *Term {
 	if a.IsConst() {
-		return Bool(a.val == 0)
+		return tb.Bool(a.val == 0)
 	}
 	if a.op == "not" {
 		return a.args[0]
 	}
-	return mk("not", 0, 0, "", a)
+	return tb.mk("not", 0, 0, "", a)
 }
-func And(a, b *Term) *Term {
+func (tb *TB) And(a, b *Term) *Term {
 	if a.False() || b.False() {
-		return Bool(false)
+		return tb.Bool(false)
 	}
 	if a.True() {
 		return b
@@ -230,11 +253,11 @@ func And(a, b *Term) *Term {
 	if b.True() {
 		return a
 	}
-	return mk("and", 0, 0, "", a, b)
+	return tb.mk("and", 0, 0, "", a, b)
 }
-func Or(a, b *Term) *Term {
+func (tb *TB) Or(a, b *Term) *Term {
 	if a.True() || b.True() {
-		return Bool(true)
+		return tb.Bool(true)
 	}
 	if a.False() {
 		return b
@@ -242,9 +265,9 @@ func Or(a, b *Term) *Term {
 	if b.False() {
 		return a
 	}
-	return mk("or", 0, 0, "", a, b)
+	return tb.mk("or", 0, 0, "", a, b)
 }
-func Ite(c, a, b *Term) *Term {
+func (tb *TB) Ite(c, a, b *Term) *Term {
 	if c.True() {
 		return a
 	}
@@ -254,65 +277,65 @@ func Ite(c, a, b *Term) *Term {
 	if a == b {
 		return a
 	}
-	return mk("ite", a.w, 0, "", c, a, b)
+	return tb.mk("ite", a.w, 0, "", c, a, b)
 }
-func BvNot(a *Term) *Term {
+func (tb *TB) BvNot(a *Term) *Term {
 	if a.IsConst() {
-		return Const(a.w, ^a.val)
+		return tb.Const(a.w, ^a.val)
 	}
-	return mk("bvnot", a.w, 0, "", a)
+	return tb.mk("bvnot", a.w, 0, "", a)
 }
-func BvNeg(a *Term) *Term {
+func (tb *TB) BvNeg(a *Term) *Term {
 	if a.IsConst() {
-		return Const(a.w, -a.val)
+		return tb.Const(a.w, -a.val)
 	}
-	return mk("bvneg", a.w, 0, "", a)
+	return tb.mk("bvneg", a.w, 0, "", a)
 }
 
 // Resize converts to width w with zero or sign extension / truncation.
-func Resize(a *Term, w int, signed bool) *Term {
+func (tb *TB) Resize(a *Term, w int, signed bool) *Term {
 	if a.w == w {
 		return a
 	}
 	if a.IsConst() {
 		if w < a.w {
-			return Const(w, a.val)
+			return tb.Const(w, a.val)
 		}
 		if signed {
-			return Const(w, uint64(sext(a.val, a.w)))
+			return tb.Const(w, uint64(sext(a.val, a.w)))
 		}
-		return Const(w, a.val)
+		return tb.Const(w, a.val)
 	}
 	if w < a.w {
-		return mk("extract", w, uint64(w-1), "", a)
+		return tb.mk("extract", w, uint64(w-1), "", a)
 	}
 	if signed {
-		return mk("sext", w, uint64(w-a.w), "", a)
+		return tb.mk("sext", w, uint64(w-a.w), "", a)
 	}
-	return mk("zext", w, uint64(w-a.w), "", a)
+	return tb.mk("zext", w, uint64(w-a.w), "", a)
 }
 
-func Clz64(x *Term) *Term {
+func (tb *TB) Clz64(x *Term) *Term {
 	if x.IsConst() {
-		return Const(64, uint64(bits.LeadingZeros64(x.val)))
+		return tb.Const(64, uint64(bits.LeadingZeros64(x.val)))
 	}
-	c := Const(64, 0)
+	c := tb.Const(64, 0)
 	y := x
 	for _, sh := range []uint64{32, 16, 8, 4, 2, 1} {
-		hi := BV("bvlshr", y, Const(64, sh))
-		cond := Not(Cmp("=", hi, Const(64, 0)))
-		c = Ite(cond, c, BV("bvadd", c, Const(64, sh)))
-		y = Ite(cond, hi, y)
+		hi := tb.BV("bvlshr", y, tb.Const(64, sh))
+		cond := tb.Not(tb.Cmp("=", hi, tb.Const(64, 0)))
+		c = tb.Ite(cond, c, tb.BV("bvadd", c, tb.Const(64, sh)))
+		y = tb.Ite(cond, hi, y)
 	}
-	return Ite(Cmp("=", x, Const(64, 0)), Const(64, 64), c)
+	return tb.Ite(tb.Cmp("=", x, tb.Const(64, 0)), tb.Const(64, 64), c)
 }
-func Ctz64(x *Term) *Term {
+func (tb *TB) Ctz64(x *Term) *Term {
 	if x.IsConst() {
-		return Const(64, uint64(bits.TrailingZeros64(x.val)))
+		return tb.Const(64, uint64(bits.TrailingZeros64(x.val)))
 	}
 	// ctz(x) = 63 - clz(x & -x) for x != 0
-	low := BV("bvand", x, BvNeg(x))
-	return Ite(Cmp("=", x, Const(64, 0)), Const(64, 64), BV("bvsub", Const(64, 63), Clz64(low)))
+	low := tb.BV("bvand", x, tb.BvNeg(x))
+	return tb.Ite(tb.Cmp("=", x, tb.Const(64, 0)), tb.Const(64, 64), tb.BV("bvsub", tb.Const(64, 63), tb.Clz64(low)))
 }
 
 func (t *Term) SMT() string {
@@ -352,4 +375,144 @@ func (t *Term) SMT() string {
 	}
 	t.smt = s
 	return s
+}
+
+// Eval evaluates t under a (total) assignment of variables; missing variables read as 0.
+// Bool results are 0/1. memo may be nil.
+func (t *Term) Eval(m map[string]uint64, memo map[int]uint64) uint64 {
+	if memo != nil {
+		if v, ok := memo[t.id]; ok {
+			return v
+		}
+	}
+	var r uint64
+	a := func(i int) uint64 { return t.args[i].Eval(m, memo) }
+	b2u := func(b bool) uint64 {
+		if b {
+			return 1
+		}
+		return 0
+	}
+	switch t.op {
+	case "const":
+		r = t.val
+	case "var":
+		r = m[t.name] & mask64(t.w)
+	case "not":
+		r = 1 - a(0)
+	case "and":
+		r = a(0) & a(1)
+	case "or":
+		r = a(0) | a(1)
+	case "ite":
+		if a(0) == 1 {
+			r = a(1)
+		} else {
+			r = a(2)
+		}
+	case "=":
+		r = b2u(a(0) == a(1))
+	case "bvult":
+		r = b2u(a(0) < a(1))
+	case "bvule":
+		r = b2u(a(0) <= a(1))
+	case "bvslt":
+		w := t.args[0].w
+		r = b2u(sext(a(0), w) < sext(a(1), w))
+	case "bvsle":
+		w := t.args[0].w
+		r = b2u(sext(a(0), w) <= sext(a(1), w))
+	case "bvnot":
+		r = ^a(0) & mask(t.w)
+	case "bvneg":
+		r = (-a(0)) & mask(t.w)
+	case "extract":
+		r = a(0) & mask(t.w)
+	case "zext":
+		r = a(0)
+	case "sext":
+		r = uint64(sext(a(0), t.args[0].w)) & mask(t.w)
+	default:
+		x, y := a(0), a(1)
+		w := t.w
+		switch t.op {
+		case "bvadd":
+			r = x + y
+		case "bvsub":
+			r = x - y
+		case "bvmul":
+			r = x * y
+		case "bvand":
+			r = x & y
+		case "bvor":
+			r = x | y
+		case "bvxor":
+			r = x ^ y
+		case "bvshl":
+			if y >= uint64(w) {
+				r = 0
+			} else {
+				r = x << y
+			}
+		case "bvlshr":
+			if y >= uint64(w) {
+				r = 0
+			} else {
+				r = x >> y
+			}
+		case "bvashr":
+			if y >= uint64(w) {
+				y = uint64(w - 1)
+			}
+			r = uint64(sext(x, w) >> y)
+		case "bvudiv":
+			if y == 0 {
+				r = mask(w)
+			} else {
+				r = x / y
+			}
+		case "bvurem":
+			if y == 0 {
+				r = x
+			} else {
+				r = x % y
+			}
+		case "bvsdiv":
+			sx, sy := sext(x, w), sext(y, w)
+			if sy == 0 {
+				if sx >= 0 {
+					r = mask(w)
+				} else {
+					r = 1
+				}
+			} else if sy == -1 {
+				r = uint64(-sx)
+			} else {
+				r = uint64(sx / sy)
+			}
+		case "bvsrem":
+			sx, sy := sext(x, w), sext(y, w)
+			if sy == 0 {
+				r = x
+			} else if sy == -1 {
+				r = 0
+			} else {
+				r = uint64(sx % sy)
+			}
+		default:
+			panic("Eval: op " + t.op)
+		}
+		r &= mask(w)
+	}
+	if memo != nil {
+		memo[t.id] = r
+	}
+	return r
+}
+
+func mask64(w int) uint64 {
+	if w == 0 {
+		return 1
+	}
+	return mask(w)
 }
